@@ -286,6 +286,7 @@ def check(pm: ProgramModel, ctx: Ctx) -> None:
                   bad=f"{ci.name}: the result for a model depends on a model analysed earlier by another "
                       f"operation object (process-wide state): {_short(after)} vs {_short(fresh)}")
     after_edit(pm, ctx, mb, ops)
+    op_sequences(pm, ctx, mb, ops)
     genattr(pm, ctx, mb)
     ctx.floor(rule, "obligations", len(ctx.obligations), 30)
 
@@ -373,6 +374,151 @@ def after_edit(pm: ProgramModel, ctx: Ctx, mb: ModelBuilder, ops: list[Any]) -> 
                   "the result for a model edited in place after a first analysis is the result for the edited model",
                   bad=f"{ci.name}: after an in-place edit of the model (group member added, mandatory child added, sub-tree "
                       f"detached) the result is still (partly) the one of the model as it was: {_short(after)} vs {_short(fresh)}")
+    reset_global_state()
+
+
+def op_sequences(pm: ProgramModel, ctx: Ctx, mb: ModelBuilder, ops: list[Any], prefix: str = "C19") -> None:
+    """Sequences of calls on ONE operation object (the other history rules use a new object per step): (edit) execute,
+    the model edited in place - a group member added, a mandatory child attached, a sub-tree detached; separately: a new
+    root put on top -, execute again; (failed) execute on a good model, an execution that fails half-way on an
+    ill-formed one, execute on a good model; (caller) the caller empties / extends the result it was given, execute
+    again. Each time the result must be the one a fresh object in a fresh process gives for an independently built model
+    of the shape the model has now."""
+    from ..absint import reset_global_state
+    rule = f"{prefix}-SEQUENCE"
+
+    def build(edit: str = "") -> tuple[AObj, dict[str, Any]]:
+        F = mb.feature
+        root, a, b = F("R"), F("A"), F("B")
+        g1, g2, m1, o1, o2 = F("G1"), F("G2"), F("M1"), F("O1"), F("O2")
+        mb.relation(root, [a], 1, 1)
+        mb.relation(root, [b], 0, 1)
+        grp = mb.relation(a, [g1, g2], 1, 1)
+        mb.relation(a, [m1], 1, 1)
+        rb = mb.relation(b, [o1], 0, 1)
+        mb.relation(o1, [o2], 1, 1)
+        fm = mb.model(root, [mb.constraint("k", mb.node(mb.op("REQUIRES"), mb.node("G1"), mb.node("B")))])
+        h = {"a": a, "b": b, "grp": grp, "rb": rb, "root": root}
+        if edit:
+            apply_edit(fm, h, edit)
+        return fm, h
+
+    def apply_edit(fm: AObj, h: dict[str, Any], edit: str) -> None:
+        if edit == "grow":
+            g3 = mb.feature("G3", parent=h["a"])
+            h["grp"]._f["children"].append(g3)                 # another member of the existing group
+            m2 = mb.feature("M2")
+            mb.relation(h["a"], [m2], 1, 1)                     # a new mandatory child, attached with add_relation
+            mb.relation(m2, [mb.feature("M3")], 1, 1)
+            h["b"]._f["relations"].remove(h["rb"])              # a sub-tree detached
+        elif edit == "new-root":
+            top = mb.feature("Top")
+            mb.relation(top, [h["root"]], 1, 1)                 # the old root becomes the mandatory child of a new one
+            fm._f["root"] = top
+
+    def bad_model() -> AObj:
+        F = mb.feature
+        root, x = F("R"), F("X")
+        mb.relation(root, [x], 1, 1)
+        r2 = mb.relation(x, [F("Y")], 1, 1)
+        r2._f["children"].append("Driver")                      # a name where a feature belongs: the walk fails half-way
+        return mb.model(root, [])
+
+    def run(it: Interp, ci: Any, op: AObj, fm: AObj) -> Any:
+        if ci.name == "FMFeatureAncestors":                     # always asked about the same feature, G1, wherever it hangs
+            stack, target = [fm._f["root"]], None
+            while stack:
+                f_ = stack.pop()
+                if isinstance(f_, AObj) and f_._f.get("name") == "G1":
+                    target = f_
+                if isinstance(f_, AObj):
+                    stack.extend(c for r in f_._f["relations"] for c in r._f["children"])
+            if target is not None:
+                it.call(pm.method(ci, "set_feature"), [op, target])
+        it.call(pm.method(ci, "execute"), [op, fm])
+        return it.call(pm.method(ci, "get_result"), [op])
+
+    def fresh(ci: Any, edit: str) -> Any:
+        reset_global_state()
+        fm2, _ = build(edit)
+        it2 = Interp(pm, max_depth=60)
+        natives(it2)
+        return canon(run(it2, ci, setup_op(pm, it2, ci, mb, fm2), fm2))
+
+    for ci in ops:
+        if ci.name in MUTATING:
+            continue
+        where = loc(ci.unit.path, ci.node)
+        for edit in ("grow", "new-root"):
+            key = f"execute-edit-execute:{edit}:{ci.name}"
+            try:
+                reset_global_state()
+                fm, h = build()
+                it = Interp(pm, max_depth=60)
+                natives(it)
+                op = setup_op(pm, it, ci, mb, fm)
+                run(it, ci, op, fm)
+                apply_edit(fm, h, edit)
+                after = canon(run(it, ci, op, fm))
+                want = fresh(ci, edit)
+            except (AbsRaise, AbsMutation) as exc:
+                ctx.violation(rule, key, where, f"{ci.name}: raises {exc.what}")
+                continue
+            ctx.check(_strip_ids(after) == _strip_ids(want), rule, key, where,
+                      "one operation object executed again after the model was edited in place gives the edited model's result",
+                      bad=f"{ci.name}: the same operation object, executed again after the model was edited in place ({edit}), "
+                          f"answers {_short(after)}; a fresh object on the edited model answers {_short(want)}")
+        # a failing execution in between
+        key = f"execute-failed-execute:{ci.name}"
+        try:
+            reset_global_state()
+            fm, _ = build()
+            it = Interp(pm, max_depth=60)
+            natives(it)
+            op = setup_op(pm, it, ci, mb, fm)
+            run(it, ci, op, fm)
+            failed = False
+            try:
+                run(it, ci, op, bad_model())
+            except (AbsRaise, AbsMutation):
+                failed = True
+            fm3, _ = build("grow")
+            after = canon(run(it, ci, op, fm3))
+            want = fresh(ci, "grow")
+        except (AbsRaise, AbsMutation) as exc:
+            ctx.violation(rule, key, where, f"{ci.name}: raises {exc.what}")
+            continue
+        ctx.check(_strip_ids(after) == _strip_ids(want), rule, key, where,
+                  "an execution that failed on an ill-formed model leaves nothing behind for the next execution",
+                  bad=f"{ci.name}: after an execution {'that failed half-way on an ill-formed model' if failed else 'on an odd model'}"
+                      f" the same object answers {_short(after)} for a good model; a fresh object answers {_short(want)}")
+        # the caller changes the result it was given
+        key = f"execute-caller-edits-result-execute:{ci.name}"
+        try:
+            reset_global_state()
+            fm, _ = build()
+            it = Interp(pm, max_depth=60)
+            natives(it)
+            op = setup_op(pm, it, ci, mb, fm)
+            res = run(it, ci, op, fm)
+            if isinstance(res, list):
+                res.append("junk")
+                del res[0:1]
+            elif isinstance(res, dict):
+                res["junk"] = 1
+            elif isinstance(res, set):
+                res.add("junk")
+            else:
+                continue
+            after = canon(run(it, ci, op, fm))
+            want = fresh(ci, "")
+        except (AbsRaise, AbsMutation) as exc:
+            ctx.violation(rule, key, where, f"{ci.name}: raises {exc.what}")
+            continue
+        ctx.check(_strip_ids(after) == _strip_ids(want), rule, key, where,
+                  "what the caller does to a result it was given does not show in the next execution",
+                  bad=f"{ci.name}: after the caller changed the result it was given, the next execution on the same model answers "
+                      f"{_short(after)} instead of {_short(want)}")
     reset_global_state()
 
 
